@@ -287,7 +287,10 @@ task_reject.contract_fn = "curves.Curve.knot_insert"
 
 
 def tasks(tier, seed):
-    ts = []
+    from ..pyvc.driver import verify
+    from ..contracts import kv, misc
+    ts = [(verify, (misc.INSERT_ONCE, "heavy", "Operations.one_knot_insert_once", None)),
+          (verify, (kv.ADD, "heavy", "ImmutableKnotVector.__add__", None))]
     for sh in tier_shapes(tier):
         ts.append((task_matrix, (sh, tier)))
         ts.append((task_curve, (sh, False, tier)))
@@ -380,11 +383,14 @@ def replay(o):
 
 
 INFO = dict(
-    assumptions=A.S_COMMON, trusted_base=A.TRUSTED, min_obligations=200, level="other",
-    explanation="C04: refinement identity of the insertion matrix and function-preservation of Curve.knot_insert on every span of the "
+    assumptions=A.S_COMMON + [A.A10], trusted_base=A.TRUSTED, min_obligations=200, level="other",
+    explanation="C04: engine V proves that one_knot_insert_once returns exactly Boehm's matrix (identity rows, alpha / 1-alpha band, shift rows; index safety, no "
+                "division by zero, termination) for every knot vector, interior node and admissible multiplicity; that this matrix preserves the function is then an "
+                "identity checked per shape by engine S: refinement identity of the insertion matrix and function-preservation of Curve.knot_insert on every span of the "
                 "refined vector, for node classes (new value in every open span, existing knots, repeated / several / unsorted nodes); the new value "
                 "ranges over the whole open span, so the value 0 is inside the symbolic range. Rejections: ValueError and unchanged state.",
-    functions=["heavy.Operations.one_knot_insert_once", "heavy.Operations.one_knot_insert", "heavy.Operations.knot_insert",
+    functions=["heavy.Operations.one_knot_insert_once (V: equals Boehm's closed-form matrix for ALL knot vectors, nodes and multiplicities <= p)",
+               "heavy.ImmutableKnotVector.__add__ (V)", "heavy.Operations.one_knot_insert", "heavy.Operations.knot_insert",
                "heavy.ImmutableKnotVector.__add__", "curves.Curve.knot_insert", "curves.BaseCurve.apply"],
 )
 
